@@ -16,7 +16,7 @@ THEOREMS: list[str] = []  # filled from Properties/C05.lean by the registry (see
 RULE = (
     "corpus; exhaustive grammar strings with <=2 (quick) / <=3 (thorough) operator-function-group nodes over atoms {a,b,2,3} "
     "x scopes; seeded random grammar strings (size 3..9 quick, ..14 thorough, longer atoms, 30-digit literals); same-level chains; "
-    "name= prefixes; one expression object evaluated under a sequence of scopes (with an unbound name / a zero in between); non-trivial = distinct line whose string has >=1 operator and lies in the documented grammar (spec oracle)"
+    "name= prefixes; identifier-free expressions as dimensions of an annotation checked against arrays; one expression object evaluated under a sequence of scopes (with an unbound name / a zero in between); non-trivial = distinct line whose string has >=1 operator and lies in the documented grammar (spec oracle)"
 )
 
 
@@ -39,6 +39,27 @@ def cases(tier, rng, run):
                         # a named expression whose own name is already bound (to something else): the value is
                         # still the arithmetic value of the expression, not the remembered binding
                         out.append(Case(f"EVAL\tn={e}\t{sc};n:977", f"exh{k}"))
+    # an expression without any identifier is still an expression: as a dimension of an annotation it demands its arithmetic value
+    # (not its first number) of the tensor — the path through TensorTypeBase / DLTypeContext, not only `evaluate`
+    import itertools
+
+    lits = ["2", "3", "4", "16"]
+    forms = [f"{x}{o}{y}" for x, y in itertools.product(lits, repeat=2) for o in "+-*/^"] + [f"isqrt({x})" for x in lits] \
+        + [f"{f}({x},{y})" for f in ("min", "max") for x, y in itertools.product(lits[:3], repeat=2)] + ["7-2-1", "2*3+1", "(2+3)*2", "2^3^2", "isqrt(16)+1"]
+    for e in forms:
+        if not pyref.feasible(e, {}):
+            continue
+        try:
+            v = pyref.ev(pyref.parse(e), {})
+        except Exception:  # noqa: BLE001
+            continue
+        if not 0 <= v <= 64:
+            continue
+        first = int(re.findall(r"\d+", e)[0])
+        for dim in (e, "k=" + e):
+            for size in {v, first, v + 1}:
+                out.append(Case(f"CTX\t\tA|x|FloatTensor,0,b {dim}|T,0:float32,2.{size}\tV", "litexpr", {"want": size == v}))
+                out.append(Case(f"CTX\t\tA|x|FloatTensor,0,{dim} b|T,0:float32,{size}.2\tA|y|FloatTensor,0,b|T,1:float32,2\tV", "litexpr", {"want": size == v}))
     n = 30000 if tier == "quick" else 400000
     atoms = ["a", "b", "c", "x_1", "dim", "1", "2", "3", "07", "10", "123456789012345678901234567890"]
     for _ in range(n):
@@ -86,6 +107,12 @@ _POST = re.compile(r"id=(.*?) post=(\[.*?\])(?: |$)")
 
 def judge(case, impl_out, spec):
     op = case.line.split("\t")[0]
+    if case.tag == "litexpr":
+        if case.meta["want"] and not impl_out.startswith("accept"):
+            return "an axis whose size is the arithmetic value of its (identifier-free) expression is refused: " + impl_out
+        if not case.meta["want"] and impl_out.startswith("accept"):
+            return "an axis whose size is NOT the arithmetic value of its (identifier-free) expression is accepted"
+        return None
     if not spec.startswith("G"):
         return None
     if impl_out.startswith("err SyntaxError"):
